@@ -200,7 +200,10 @@ def build_harness(name="l1", race=False):
 # further statement files of a property (same rules as Properties/<pid>.v: statements, Print Assumptions, Examples);
 # they are compiled, scanned and counted together with the main file
 EXTRA_PROPERTY_FILES = {
+    "C05": ["Refine"],
     "C06": ["C06own"],
+    "C07": ["Refine"],
+    "C14": ["Refine"],
     "C20": ["C20float"],
 }
 
